@@ -68,41 +68,6 @@ var newUClientConnection = func(
 		s.queueControlFrame,
 		connIDGenerator,
 	)
-	s.ctx, s.ctxCancel = context.WithCancelCause(ctx)
-	s.preSetup()
-	// [UQUIC] A QUICSpec is authoritative over the Initial CRYPTO framing (via
-	// InitialPacketSpec.FrameBuilder), and uPacketPacker re-frames every Initial
-	// datagram. The upstream anti-DPI ClientHello scrambler would cut the stream at
-	// the SNI/ECH, producing non-contiguous CRYPTO frames that the re-framing path
-	// cannot reassemble (breaks multi-datagram Initials, e.g. Chrome 146). Disable it.
-	s.initialStream.DisableScrambling()
-	s.sentPacketHandler = ackhandler.NewUAckHandler(
-		initialPacketNumber,
-		protocol.ByteCount(s.config.InitialPacketSize),
-		s.rttStats,
-		&s.connStats,
-		false, // has no effect
-		s.conn.capabilities().ECN,
-		s.receivedPacketHandler.IgnorePacketsBelow,
-		s.perspective,
-		s.qlogger,
-		s.logger,
-	)
-	s.currentMTUEstimate.Store(uint32(estimateMaxPayloadSize(protocol.ByteCount(s.config.InitialPacketSize))))
-	// [UQUIC] Set Initial packet number encoding length.
-	// Per-packet list takes precedence over single-value override.
-	if len(uSpec.InitialPacketSpec.InitPacketNumberLengths) > 0 {
-		ackhandler.SetInitialPacketNumberLengths(
-			s.sentPacketHandler,
-			protocol.PacketNumber(uSpec.InitialPacketSpec.InitPacketNumber),
-			uSpec.InitialPacketSpec.InitPacketNumberLengths,
-		)
-	} else if uSpec.InitialPacketSpec.InitPacketNumberLength != 0 {
-		ackhandler.SetInitialPacketNumberLength(s.sentPacketHandler, uSpec.InitialPacketSpec.InitPacketNumberLength)
-	}
-
-	oneRTTStream := newCryptoStream()
-
 	var params *wire.TransportParameters
 
 	// [UQUIC] Work on a per-connection copy of the ClientHelloSpec: the rewriting below and
@@ -138,6 +103,11 @@ var newUClientConnection = func(
 				}
 				params.PopulateFromUQUIC(ext.TransportParameters)
 				s.connIDManager.SetConnectionIDLimit(params.ActiveConnectionIDLimit)
+				// [UQUIC] The peer is entitled to use the limits that go on the wire, not the ones
+				// in the Config: enforce what is advertised (this has to happen before preSetup
+				// creates the flow controllers, the streams map and the frame parser from s.config).
+				s.config = configForAdvertisedParameters(s.config, params)
+				s.advertisedParams = params
 				tpSet = true
 				break FOR_EACH_TLS_EXTENSION
 			default:
@@ -175,6 +145,41 @@ var newUClientConnection = func(
 			params.MaxDatagramFrameSize = protocol.InvalidByteCount
 		}
 	}
+	s.ctx, s.ctxCancel = context.WithCancelCause(ctx)
+	s.preSetup()
+	// [UQUIC] A QUICSpec is authoritative over the Initial CRYPTO framing (via
+	// InitialPacketSpec.FrameBuilder), and uPacketPacker re-frames every Initial
+	// datagram. The upstream anti-DPI ClientHello scrambler would cut the stream at
+	// the SNI/ECH, producing non-contiguous CRYPTO frames that the re-framing path
+	// cannot reassemble (breaks multi-datagram Initials, e.g. Chrome 146). Disable it.
+	s.initialStream.DisableScrambling()
+	s.sentPacketHandler = ackhandler.NewUAckHandler(
+		initialPacketNumber,
+		protocol.ByteCount(s.config.InitialPacketSize),
+		s.rttStats,
+		&s.connStats,
+		false, // has no effect
+		s.conn.capabilities().ECN,
+		s.receivedPacketHandler.IgnorePacketsBelow,
+		s.perspective,
+		s.qlogger,
+		s.logger,
+	)
+	s.currentMTUEstimate.Store(uint32(estimateMaxPayloadSize(protocol.ByteCount(s.config.InitialPacketSize))))
+	// [UQUIC] Set Initial packet number encoding length.
+	// Per-packet list takes precedence over single-value override.
+	if len(uSpec.InitialPacketSpec.InitPacketNumberLengths) > 0 {
+		ackhandler.SetInitialPacketNumberLengths(
+			s.sentPacketHandler,
+			protocol.PacketNumber(uSpec.InitialPacketSpec.InitPacketNumber),
+			uSpec.InitialPacketSpec.InitPacketNumberLengths,
+		)
+	} else if uSpec.InitialPacketSpec.InitPacketNumberLength != 0 {
+		ackhandler.SetInitialPacketNumberLength(s.sentPacketHandler, uSpec.InitialPacketSpec.InitPacketNumberLength)
+	}
+
+	oneRTTStream := newCryptoStream()
+
 	if s.qlogger != nil {
 		s.qlogTransportParameters(params, protocol.PerspectiveClient, false)
 	}
@@ -235,4 +240,27 @@ func cloneClientHelloSpec(chs *tls.ClientHelloSpec) *tls.ClientHelloSpec {
 		}
 	}
 	return &c
+}
+
+// configForAdvertisedParameters returns a copy of conf in which every limit that the
+// connection enforces on its peer is the one advertised in params, the transport parameters a
+// spec-driven client puts on the wire. Without this the connection would advertise the spec's
+// values but enforce the Config's (defaults): a peer using the advertised flow control
+// windows, stream counts, DATAGRAM support or idle timeout would be answered with
+// FLOW_CONTROL_ERROR, STREAM_LIMIT_ERROR, FRAME_ENCODING_ERROR or an early idle timeout.
+// Stream receive windows are advertised per stream type; Conn.newFlowController picks the one
+// for the stream at hand from Conn.advertisedParams, the Config only carries the largest.
+func configForAdvertisedParameters(conf *Config, params *wire.TransportParameters) *Config {
+	c := conf.Clone()
+	c.InitialStreamReceiveWindow = uint64(max(params.InitialMaxStreamDataBidiLocal, params.InitialMaxStreamDataBidiRemote, params.InitialMaxStreamDataUni))
+	c.MaxStreamReceiveWindow = max(c.MaxStreamReceiveWindow, c.InitialStreamReceiveWindow)
+	c.InitialConnectionReceiveWindow = uint64(params.InitialMaxData)
+	c.MaxConnectionReceiveWindow = max(c.MaxConnectionReceiveWindow, c.InitialConnectionReceiveWindow)
+	c.MaxIncomingStreams = int64(params.MaxBidiStreamNum)
+	c.MaxIncomingUniStreams = int64(params.MaxUniStreamNum)
+	c.EnableDatagrams = params.MaxDatagramFrameSize > 0
+	if params.MaxIdleTimeout > 0 {
+		c.MaxIdleTimeout = params.MaxIdleTimeout
+	}
+	return c
 }
